@@ -69,7 +69,7 @@ func workers() int {
 // Main is the entry point shared by both engine binaries.
 func Main(engine string, props map[string]PropEngine) {
 	if len(os.Args) < 2 {
-		fmt.Fprintf(os.Stderr, "usage: %s batch <prop> <tier> | worker ... | replay <file> | one <prop> <tier> <idx>\n", engine)
+		fmt.Fprintf(errOut, "usage: %s batch <prop> <tier> | worker ... | replay <file> | one <prop> <tier> <idx>\n", engine)
 		os.Exit(ExitHarness)
 	}
 	switch os.Args[1] {
@@ -116,7 +116,7 @@ func Main(engine string, props map[string]PropEngine) {
 }
 
 func fatalf(format string, a ...interface{}) {
-	fmt.Fprintf(os.Stderr, "HARNESS-ERROR: "+format+"\n", a...)
+	fmt.Fprintf(errOut, "HARNESS-ERROR: "+format+"\n", a...)
 	os.Exit(ExitHarness)
 }
 
@@ -167,7 +167,7 @@ func worker(prop, tier string, pe PropEngine, base uint64, widx, nw, total, star
 		r.Index = idx
 		b, err := json.Marshal(r)
 		if err != nil {
-			fmt.Fprintf(os.Stderr, "worker: marshal: %v\n", err)
+			fmt.Fprintf(errOut, "worker: marshal: %v\n", err)
 			os.Exit(ExitHarness)
 		}
 		out.Write(b)
@@ -214,7 +214,7 @@ func batch(engine, prop, tier string, pe PropEngine) int {
 			for attempt := 0; attempt < 50; attempt++ {
 				cmd := exec.Command(self, "worker", prop, tier, fmt.Sprint(base), fmt.Sprint(w), fmt.Sprint(nw), fmt.Sprint(total), fmt.Sprint(start))
 				cmd.Env = append(os.Environ(), "GOMAXPROCS=2")
-				cmd.Stderr = os.Stderr
+				cmd.Stderr = errOut
 				pipe, err := cmd.StdoutPipe()
 				if err != nil {
 					mu.Lock()
@@ -485,3 +485,7 @@ func (a *aggregate) writeEvidence(m Meta, prop, tier string, base uint64, total,
 	os.MkdirAll(dir, 0755)
 	return os.WriteFile(filepath.Join(dir, prop+".json"), append(b, '\n'), 0644)
 }
+
+// errOut is the harness's own stderr, captured before an engine redirects the
+// process-wide os.Stderr away from simulated processes' error text.
+var errOut = os.Stderr
